@@ -153,6 +153,39 @@ func VH_C19_Verify() {
 	}
 }
 
+// VH_C19_OtherDeclaredType: the server signature declares a checksum type that is not the service key's
+// (another Kerberos checksum type, or an unknown one, with the signature length the reader gives it - none
+// for types it does not know).  Whatever the signature bytes are, the PAC is rejected.  (rc4's type is not
+// among the others: HMAC-MD5 is defined for keys of every length, so "rejected" would be a MAC-forgery claim;
+// for the same reason pairs in which the service key has the foreign type's key length are left out.)
+func VH_C19_OtherDeclaredType() {
+	et := zzverif.Param("etype")
+	others := []struct {
+		typ uint32
+		sl  int
+		kl  int // key length of the checksum type's encryption type (0: the library does not know the type)
+	}{{12, 0, 24}, {15, 12, 16}, {16, 12, 32}, {1, 0, 0}, {7, 0, 0}, {0, 0, 0}} // (the RFC 8009 types 19/20 derive keys by HMAC from a key of any length: computable, left out)
+	o := others[zzverif.Param("other")]
+	zzverif.Assume(o.typ != uint32(int32(crypto.VHCksumID(et))))
+	// with a key of the foreign type's own length the checksum is computable: "some signature bytes verify" is
+	// then a statement about MAC forgery, not about this code
+	zzverif.Assume(o.kl != crypto.VHKeyLen(et))
+	key := types.EncryptionKey{KeyType: int32(et), KeyValue: zzverif.Bytes(crypto.VHKeyLen(et))}
+	kdcType := uint32(int32(crypto.VHCksumID(et)))
+	logon := zzverif.Bytes(8)
+	client := append(zzverif.Bytes(8), 2, 0, zzverif.Byte(), zzverif.Byte())
+	srvSig := append(vhLE32(nil, o.typ), zzverif.Bytes(o.sl)...)
+	kdcSig := append(vhLE32(nil, kdcType), zzverif.Bytes(vhSigLen(et))...)
+	data, _ := vhPAC([]vhBuf{{1, logon}, {10, client}, {6, srvSig}, {7, kdcSig}})
+	var p PACType
+	err := p.Unmarshal(data)
+	if err == nil {
+		err = p.ProcessPACInfoBuffers(key, log.New(io.Discard, "", 0))
+	}
+	zzverif.Assert("pac-with-a-foreign-server-signature-type-rejected", err != nil)
+	zzverif.Reach("done")
+}
+
 // VH_C19_Mandatory: a PAC lacking one of the mandatory buffers is rejected whatever it contains.
 func VH_C19_Mandatory() {
 	et, drop := zzverif.Param("etype"), zzverif.Param("drop")
